@@ -29,7 +29,8 @@ from concurrent.futures import ProcessPoolExecutor, ThreadPoolExecutor
 from harness import framework, tlc, c02isa, c02run, c02gen, c02attr
 
 DEVS = ["StaleRead", "LoadNoMods", "LostHigh", "EndianDrop", "DelayEarly", "NoDisjoint"]
-CLAUSES = (("lock", "Lockstep"), ("evl", "LockstepEval"), ("exact", "LockstepExact"), ("raise", "RaiseAgree"))
+CLAUSES = (("globals", "GlobalsAgree"), ("lock", "Lockstep"), ("evl", "LockstepEval"), ("exact", "LockstepExact"),
+           ("raise", "RaiseAgree"))
 DROP_WHAT = ("no-aliasing on + memory tracing off: `state >> map` (rcompose) iterates over the map items only, the "
              "stores of the map live only in its memory zones and are dropped - final memory keeps the bytes of the "
              "start state")
@@ -67,6 +68,10 @@ def trace_keys(t, v):
         elif d["kind"] == "mem":
             kind = "mem"
             ident = ("mem", k, tuple(d["loc"]))
+        elif d["kind"] == "globals":
+            diff = sorted(set(x.split("=")[0] for x in set(d["ga"]) ^ set(d["gb"])))
+            kind = ",".join(diff)
+            ident = ("globals", k)
         else:
             kind = d["kind"]
             ident = (d["kind"], k)
@@ -142,6 +147,11 @@ def run_G(ctx, quick, trees):
         ctx.count("G_steps_outside_claim", sum(o["skipped"] for o in outs))
         ctx.count("G_values_constant", sum(o["constant"] for o in outs))
         ctx.count("G_values_symbolic", sum(o["symbolic"] for o in outs))
+        ndrift = sum(o["drift"] for o in outs)
+        if ndrift:
+            ctx.count("G_values_both_routes_agree_but_model_differs", ndrift)
+            ctx.drift("G: amoco's concrete route and sigma0 >> m agree on a value the Lockstep model rejects (mapper memory "
+                      "semantics, C08/C09's subject)")
         dropped = sum(o["dropped"] for o in outs)
         if dropped:
             ctx.count("G_bytes_dropped_by_rshift", dropped)
@@ -214,7 +224,7 @@ def run_T(ctx, quick, trees, only=None):
     if quick:
         per = dict((n, 24 if n in c02isa.FIRST else 8) for n in names)
     else:
-        per = dict((n, 1200 if n in c02isa.FIRST else 400) for n in names)
+        per = dict((n, 600 if n in c02isa.FIRST else 200) for n in names)
     ctx.note("T_isas", names)
     ctx.note("T_isas_without_semantics_table", skipped)
     wants = None
@@ -355,10 +365,15 @@ def run(ctx):
     trees = c02attr.Trees("c02fix")
     try:
         ctx.note("patch_named_deviations_applicable", [s for s, _ in trees.applicable_fixes()])
-        if not os.environ.get("VERIF_C02_SWEEP"):
+        stages = os.environ.get("VERIF_C02_STAGES", "MGT")     # development aid (mutation experiments)
+        if os.environ.get("VERIF_C02_SWEEP"):
+            stages = "T"
+        if "M" in stages:
             run_M(ctx, quick)
+        if "G" in stages:
             run_G(ctx, quick, trees)
-        run_T(ctx, quick, trees)
+        if "T" in stages:
+            run_T(ctx, quick, trees)
     finally:
         trees.cleanup()
     dump_keys(ctx)
